@@ -15,7 +15,8 @@ RULE = ("histories of 5-60 events drawn from a weighted grammar over kernel even
         "with equal or different start ticks / thread creation and exit) and psutil calls (pids, pid_exists over magnitudes up to "
         "10^30 and thread ids, process_iter generators created with attrs None / valid / duplicate / empty / invalid names, "
         "advanced one yield at a time in any interleaving, closed early, cache_clear, is_running on previously yielded objects), "
-        "plus directed motifs (reuse then is_running then iterate; two generators interleaved; vanish during iteration) and a "
+        "plus directed motifs (reuse then is_running then iterate; a PID outside the committed cache yielded by an iteration in flight, "
+        "recycled, found by is_running, iteration finished, later iterations sequential or overlapping; two generators interleaved) and a "
         "pid_exists magnitude sweep; two real threads inside process_iter() at once under explicit line-level schedules (thread 0 "
         "for i lines, thread 1 for j lines, then drain; plus random schedules) with a PID marked as reused; procfs root listings with digit / non-digit / non-ASCII-digit names; /proc/<n>/status files "
         "printed by the kernel printer and malformed ones crossed with the four os.kill results. A history is non-trivial when it "
@@ -148,6 +149,46 @@ def _motif(rng):
     return evs
 
 
+def _midflight(rng):
+    """directed: a PID that is not in the committed cache is yielded by an iteration still in flight, then recycled and
+    found recycled by is_running() on the yielded object, then the iteration finishes; later iterations follow one
+    after the other (or, with 'overlap', while an earlier one is still suspended)"""
+    p, q = sorted(rng.sample([1, 2, 3, 7], 2))
+    variant = rng.choice(["first", "cleared", "spawned"])
+    evs, ny, ng = [], 0, 0
+    if variant == "first":
+        evs += [["Spawn", p, 100], ["Spawn", q, 100]]
+    elif variant == "cleared":
+        evs += [["Spawn", p, 100], ["Spawn", q, 100], ["IterNew", None]] + [["IterNext", 0]] * 3 + [["CacheClear"]]
+        ny, ng = 2, 1
+    else:
+        evs += [["Spawn", q, 100], ["IterNew", None]] + [["IterNext", 0]] * 2 + [["Spawn", p, 100]]
+        ny, ng = 1, 1
+    a1 = rng.choice(ATTRS[:8])
+    evs += [["IterNew", a1], ["IterNext", ng]]                       # yields p (smallest PID): yield number ny
+    evs += [["Reap", p], ["Spawn", p, 100 if rng.random() < 0.1 else 200]]
+    evs += [["RunY", ny]] * rng.choice([1, 1, 2])
+    if rng.random() < 0.25:
+        evs += [["IterNew", None], ["IterNext", ng + 1]]             # overlap: entered while generator ng is suspended
+        ng2 = ng + 2
+    else:
+        ng2 = ng + 1
+    evs += [["IterNext", ng]] * 2                                    # the iteration in flight finishes
+    for k in range(3):
+        evs += [["IterNew", rng.choice(ATTRS[:8])]] + [["IterNext", ng2 + k]] * 3
+    return evs
+
+
+def _overlap(rng):
+    """directed: warm cache, recycle, is_running() marks, one generator consumes the mark and stays suspended,
+    another one is entered"""
+    p, q = sorted(rng.sample([1, 2, 3, 7], 2))
+    evs = [["Spawn", p, 100], ["Spawn", q, 100], ["IterNew", None]] + [["IterNext", 0]] * 3
+    evs += [["Reap", p], ["Spawn", p, 200], ["RunY", 0], ["IterNew", None], ["IterNext", 1], ["IterNew", None]]
+    evs += [["IterNext", 2]] * 3 + [["IterNext", 1]] * 2 + [["IterNew", None]] + [["IterNext", 3]] * 3
+    return evs
+
+
 def _two_gens(rng):
     evs = [["Spawn", 1, 100], ["Spawn", 2, 100], ["Spawn", 3, 100]]
     if rng.random() < 0.5:
@@ -223,9 +264,13 @@ def gen_cases(rng, tier):
         cases.append(_hist_case(_sweep(v), "pidexists-sweep"))
     for i in range(n_hist):
         r = rng.random()
-        if r < 0.12:
+        if r < 0.10:
+            cases.append(_hist_case(_midflight(rng), None))
+        elif r < 0.12:
+            cases.append(_hist_case(_overlap(rng), None))
+        elif r < 0.22:
             cases.append(_hist_case(_motif(rng), None))
-        elif r < 0.24:
+        elif r < 0.32:
             cases.append(_hist_case(_two_gens(rng), None))
         else:
             cases.append(_hist_case(_rand_hist(rng)))
@@ -349,12 +394,12 @@ def renumber(x, table=None):
 def coq_struct(case, raw):
     k = case["kind"]
     if k == "hist":
-        evs, flag_a, flag_b = raw
+        evs, flag_a, flag_b, flag_c = raw
         model = renumber([e if isinstance(e, dict) else [e[0], e[1]] for e in evs])
         spec = [None if isinstance(e, dict) else e[2] for e in evs]
         oom = any(isinstance(e, list) and isinstance(e[0], dict) and e[0].get("t") == "Oom" for e in evs)
         return {"model": model, "spec": None, "spec_events": spec, "marked_at_entry": bool(flag_a),
-                "stale_skip": bool(flag_b), "oom": oom}
+                "stale_skip": bool(flag_b), "stale_reyield": bool(flag_c), "oom": oom}
     if k == "sched":
         return {"model": None, "spec": None}
     if k == "listing":
@@ -408,6 +453,19 @@ def oracle(case, coq, impl):
     gens = []
     seen = set()
     prev = [[], [], None]
+    # "an entry whose PID was found recycled by is_running() is replaced by a fresh object": per object token the pid and
+    # start ticks it was created for, whether is_running() already answered False on it, and -- once is_running() answers
+    # False while the PID belongs to a process with another start time -- the event index of that discovery.  Generators
+    # entered after it must never yield that object.  (Not evaluated in histories that request 'ppid': there as_dict runs
+    # is_running() out of sight.)
+    born, said_false, found_at, ytok = {}, set(), {}, []
+    hidden_isrun = any(e[0] == "IterNew" and e[1] is not None and "ppid" in e[1] for e in events)
+
+    def note_new(v):
+        acc = set()
+        _objs(v, acc)
+        return acc
+
     for idx, (ev, res) in enumerate(zip(events, impl)):
         if isinstance(res, dict):      # Skip
             continue
@@ -432,6 +490,7 @@ def oracle(case, coq, impl):
         elif k == "IterNext" and ev[1] < len(gens):
             g = gens[ev[1]]
             if g["state"] == "new":
+                g["entered"] = idx
                 g.update(state="run", L=set(tab.procs), cache={p: o["a"][0] for p, o in prev[0]}, marked=set(prev[1]),
                          seen0=set(seen), empty=not tab.procs)
             if g["state"] == "done":
@@ -444,10 +503,14 @@ def oracle(case, coq, impl):
                 if p not in g["L"]:
                     return where + "yielded PID %d which was not listed when the iteration started" % p
                 if p in g["cache"] and p not in g["marked"]:
-                    if o != g["cache"][p]:
+                    replaced_stale = g["cache"][p] in found_at and found_at[g["cache"][p]] < idx and o not in g["seen0"]
+                    if o != g["cache"][p] and not replaced_stale:
                         return where + "PID %d was cached and still listed but another object was yielded" % p
                 elif o in g["seen0"]:
                     return where + "PID %d must get a fresh object (not cached / marked as reused) but an old one was yielded" % p
+                if not hidden_isrun and o in found_at and found_at[o] < g["entered"]:
+                    return where + ("object %d was found recycled by is_running() at event %d, yet a generator entered at "
+                                    "event %d yields it for PID %d" % (o, found_at[o], g["entered"], p))
                 if g["attrs"] is not None and info != spec_keys(case, g["attrs"]):
                     return where + "info keys %r, demanded %r" % (info, spec_keys(case, g["attrs"]))
                 g["yields"].append((p, o))
@@ -480,6 +543,23 @@ def oracle(case, coq, impl):
         elif k == "CacheClear":
             if snap[0] != []:
                 return where + "cache not empty after cache_clear()"
+        # objects first seen in this event were created in it, for the process that has the PID now
+        if tag == "Yield":
+            ytok.append(out["a"][1]["a"][0])
+            t0 = out["a"][1]["a"][0]
+            if t0 not in seen and out["a"][0] in tab.procs:
+                born[t0] = (out["a"][0], tab.procs[out["a"][0]]["start"])
+        for p_, o_ in snap[0]:
+            t0 = o_["a"][0]
+            if t0 not in seen and t0 not in born and p_ in tab.procs:
+                born[t0] = (p_, tab.procs[p_]["start"])
+        if k == "RunY" and tag == "Bool" and ev[1] < len(ytok):
+            t0 = ytok[ev[1]]
+            if out["a"][0] is False:
+                if t0 not in said_false and t0 in born and born[t0][0] in tab.procs \
+                        and tab.procs[born[t0][0]]["start"] != born[t0][1]:
+                    found_at[t0] = idx
+                said_false.add(t0)
         _objs(out, seen)
         _objs(snap, seen)
         prev = snap
@@ -743,7 +823,8 @@ MANIFEST = {
             "fresh one otherwise, info keys = the requested names, no exception other than ValueError for an invalid name; on "
             "exhaustion every listed PID was yielded, or vanished meanwhile, or (known finding, refuted theorem kept) was marked as "
             "reused while cached; after a generator finishes the cache holds exactly its entries (none for PIDs not listed), "
-            "cache_clear() empties it. Text level: the procfs-root filter and the Tgid scan return the kernel's values for every "
+            "cache_clear() empties it; after is_running() found an object recycled (also mid-iteration) no generator entered later yields it, "
+            "whatever the interleaving (repaired by b70d950; the refutation of the code before it is kept in C04/Legacy.v). Text level: the procfs-root filter and the Tgid scan return the kernel's values for every "
             "printed listing / status file. Tied to the code by running the real psutil over a fake /proc on generated histories.",
     "note": "Trusted: Coq kernel + vm_compute; hand-written model coq/C04/Model.v (tied by the correspondence run only); harness "
             "(fake /proc, os.kill/os.listdir replacements, identity tokens); CPython builtins. Calls are atomic w.r.t. kernel events; "
